@@ -17,84 +17,107 @@ Theorem C05_once_then_repeat : forall inp its n k,
 Proof. exact once_then_repeat_structure. Qed.
 Print Assumptions C05_once_then_repeat.
 
-(* Inside the guard - no rejected break; at most one [while True:] and nothing after it; [vars_ok]:
-   no block introduces a name, and a name first assigned inside [while True:] is assigned by a
-   top-level statement of the body before anything reads it in that pass - the observable trace
-   (numbered statements, printed values) of the firmware is CPython's: the prologue once, in source
-   order, before the first pass; the body once per pass, in source order; values persisting between
-   passes - phase by phase, for every input history and every N. *)
-Theorem C05_once_then_repeat_partial : forall inp n its,
-  transl_ok its = true -> vars_ok its = true -> one_main_last its = true ->
+(* For every program parse() accepts - no rejected break, at most one [while True:] and nothing after it - the observable
+   trace (numbered statements, printed values) of the firmware is CPython's: the prologue once, in source order, before
+   the first pass; the body once per pass, in source order; values persisting between passes, ALSO those of names first
+   assigned inside [while True:] (directly in its body or inside a nested block there) and of names bound inside nested
+   blocks of the prologue - phase by phase, for every input history and every N.  No guard on the variables any more
+   (repaired: F-C05-looplocal-reinit; the guard clause [vars_ok] is gone), and the clause "nothing after the main loop"
+   is now part of acceptance (repaired: F-C05-postloop-in-setup, F-C05-second-main-loop-appended). *)
+Theorem C05_once_then_repeat_phases : forall inp n its,
+  transl_ok its = true ->
   forall ts tl cu ps pl pu,
   exec_phases inp n its = (ts, tl, cu) -> py_phases n its = (ps, pl, pu) ->
   obs ts = obs ps /\ concat (map obs tl) = concat (map obs pl) /\ cu = pu /\
   (no_main its = false -> map obs tl = map obs pl).
-Proof. exact once_then_repeat_da. Qed.
-Print Assumptions C05_once_then_repeat_partial.
+Proof. exact once_then_repeat_accepted. Qed.
+Print Assumptions C05_once_then_repeat_phases.
 
-Theorem C05_trace_is_pythons_partial : forall inp n its,
-  transl_ok its = true -> vars_ok its = true -> one_main_last its = true ->
+Theorem C05_trace_is_pythons : forall inp n its,
+  transl_ok its = true ->
   obs (exec inp n its) = py_exec n its.
-Proof. exact once_then_repeat_trace_da. Qed.
-Print Assumptions C05_trace_is_pythons_partial.
-
-(* the simpler guard (no name at all first assigned inside [while True:]) is a special case *)
-Theorem C05_vars_persist_is_vars_ok : forall its, vars_persist its = true -> vars_ok its = true.
-Proof. exact vars_persist_ok. Qed.
-Print Assumptions C05_vars_persist_is_vars_ok.
-
-Example C05_local_assigned_first_nonvacuous :
-  transl_ok w_local_ok = true /\ vars_ok w_local_ok = true /\ vars_persist w_local_ok = false /\
-  one_main_last w_local_ok = true /\ locals_of w_local_ok = [n_t0] /\
-  py_exec 3 w_local_ok = [EVal n_t0 1; EVal n_t0 3; EVal n_t0 5] /\ vars_ok w_looplocal = false.
-Proof. exact local_ok_example. Qed.
-Print Assumptions C05_local_assigned_first_nonvacuous.
+Proof. exact once_then_repeat_trace. Qed.
+Print Assumptions C05_trace_is_pythons.
 
 Example C05_guard_nonvacuous :
-  transl_ok w_good = true /\ vars_persist w_good = true /\ one_main_last w_good = true /\
+  transl_ok w_good = true /\ one_main_last w_good = true /\
   no_main w_good = false /\
   py_exec 2 w_good = [EMark 1; EMark 2; EVal n_g 2; EMark 2; EVal n_g 4].
 Proof. exact good_nonvacuous. Qed.
 Print Assumptions C05_guard_nonvacuous.
 
-(* Each clause of the guard is needed: the faithful model leaves CPython's trace outside it. *)
-(* a name first assigned inside [while True:] is a local of loop(): re-initialised every pass *)
-Theorem C05_looplocal_refuted : exists its inp n,
-  transl_ok its = true /\ one_main_last its = true /\ vars_ok its = false /\
-  obs (exec inp n its) <> py_exec n its.
-Proof. exact looplocal_refuted_ex. Qed.
-Print Assumptions C05_looplocal_refuted.
+(* ---------------------------------------------------------------- variables first assigned inside the main loop persist *)
+(* For every program: no name is a local of loop(), no [VarDecl] node is left in setup_body or loop_body at any depth
+   (a name first assigned at setup depth 0 or at the body level of the main loop - directly or hoisted there - is declared
+   in Program.global_decls; the default-initialised declaration a deeper block hoists is dropped when the enclosing block
+   hoists the name further), and every name assigned anywhere in the prologue or the main loop is among the globals. *)
+Theorem C05_main_loop_names_are_globals : forall its,
+  flat_map vardecls_irn (ir_setup its) = [] /\ flat_map vardecls_irn (ir_loop its) = [] /\ locals_of its = [].
+Proof. exact no_vardecl_nodes. Qed.
+Print Assumptions C05_main_loop_names_are_globals.
 
-(* statements written after the main loop (unreachable in Python) run once in setup() *)
-Theorem C05_postloop_refuted : exists its inp n,
-  transl_ok its = true /\ vars_ok its = true /\ one_main_last its = false /\
-  obs (exec inp n its) <> py_exec n its.
-Proof. exact postloop_refuted_ex. Qed.
-Print Assumptions C05_postloop_refuted.
+Theorem C05_every_assigned_name_is_global : forall its x,
+  mem_name x (globals_of its) = mem_name x (flat_map assigned_stmt (fst (split its) ++ snd (split its))).
+Proof. exact assigned_names_global. Qed.
+Print Assumptions C05_every_assigned_name_is_global.
 
-(* the body of a second top-level [while True:] is appended to loop() *)
-Theorem C05_twoloops_refuted : exists its inp n,
-  transl_ok its = true /\ vars_ok its = true /\ one_main_last its = false /\
-  obs (exec inp n its) <> py_exec n its.
-Proof. exact twoloops_refuted_ex. Qed.
-Print Assumptions C05_twoloops_refuted.
+(* the witness of the repaired finding: flag = 1 / while True: if flag: c0 = 0; flag = 0 / c0 = c0 + 1; mon.write(c0)
+   printed 1 1 1 while c0 was a local of loop(); now c0 is a global, loop_body only assigns, the firmware prints 1 2 3 *)
+Example C05_looplocal_persists :
+  transl_ok w_looplocal = true /\ globals_of w_looplocal = [n_flag; n_c0] /\ locals_of w_looplocal = [] /\
+  ir_loop w_looplocal = [NIf n_flag [NVarAssign n_c0; NVarAssign n_flag] []; NVarAssign n_c0; NShow n_c0] /\
+  obs (exec no_input 3 w_looplocal) = [EVal n_c0 1; EVal n_c0 2; EVal n_c0 3] /\
+  py_exec 3 w_looplocal = [EVal n_c0 1; EVal n_c0 2; EVal n_c0 3].
+Proof. exact looplocal_persists. Qed.
+Print Assumptions C05_looplocal_persists.
+
+(* t0 = g + 1 at the body level of the main loop: a global assigned in place *)
+Example C05_local_assigned_first_nonvacuous :
+  transl_ok w_local_ok = true /\ globals_of w_local_ok = [n_g; n_t0] /\ locals_of w_local_ok = [] /\
+  ir_loop w_local_ok = [NVarAssign n_t0; NVarAssign n_g; NShow n_t0] /\
+  py_exec 3 w_local_ok = [EVal n_t0 1; EVal n_t0 3; EVal n_t0 5] /\
+  obs (exec no_input 3 w_local_ok) = py_exec 3 w_local_ok.
+Proof. exact local_ok_example. Qed.
+Print Assumptions C05_local_assigned_first_nonvacuous.
+
+(* ---------------------------------------------------------------- nothing after the main loop *)
+(* Whatever stands before a column-0 [while True:] block and whatever follows it - a plain statement, a def, another
+   [while True:] - the program is rejected (ValueError "statements after the main loop are unreachable"): a clean
+   rejection instead of running the unreachable statements once in setup() / appending a second body to loop(). *)
+Theorem C05_after_main_loop_rejected : forall a body it r, transl_ok (a ++ IMainLoop body :: it :: r) = false.
+Proof. exact after_main_rejected. Qed.
+Print Assumptions C05_after_main_loop_rejected.
+
+(* and the clause rejects nothing else: an accepted program has no main loop, or exactly one, as its last item *)
+Theorem C05_accepted_shape : forall its, transl_ok its = true ->
+  breaks_ok its = true /\
+  (no_main its = true \/ exists a body, its = a ++ [IMainLoop body] /\ no_main a = true).
+Proof. exact accepted_shape. Qed.
+Print Assumptions C05_accepted_shape.
+
+(* the witnesses of the two repaired findings: mon.write("m1"); while True: mon.write("m2") followed by mon.write("m3"),
+   resp. by a second while True: - the break guard alone accepts both, parse() now rejects both *)
+Example C05_postloop_rejected_nonvacuous :
+  transl_ok w_postloop = false /\ breaks_ok w_postloop = true /\
+  transl_ok w_twoloops = false /\ breaks_ok w_twoloops = true.
+Proof. exact postloop_rejected_examples. Qed.
+Print Assumptions C05_postloop_rejected_nonvacuous.
 
 (* ---------------------------------------------------------------- names bound inside a block of the prologue *)
-(* For every program with at most one [while True:] as last item: a name bound ANYWHERE in the prologue - by a depth-0
-   statement or inside an if / else / for / while / try / except block, at any nesting depth - is never declared again
-   inside loop(): no [VarDecl] node for it at any depth of loop_body (an assignment to it in the main loop is a plain
-   assignment to the sketch global, so the value carries over from pass to pass), and it is not a local of loop(). *)
-Theorem C05_prologue_names_never_redeclared : forall its x, one_main_last its = true ->
-  mem_name x (flat_map assigned_stmt (fst (split its))) = true ->
+(* For every program (no guard any more): a name bound ANYWHERE - by a depth-0 statement or inside an if / else / for /
+   while / try / except block, at any nesting depth, before or inside the main loop - is never declared inside loop():
+   no [VarDecl] node for it at any depth of loop_body (an assignment to it in the main loop is a plain assignment to the
+   sketch global, so the value carries over from pass to pass), and it is not a local of loop(). *)
+Theorem C05_prologue_names_never_redeclared : forall its x,
   mem_name x (flat_map vardecls_irn (ir_loop its)) = false /\ mem_name x (locals_of its) = false.
 Proof. exact prologue_names_global. Qed.
 Print Assumptions C05_prologue_names_never_redeclared.
 
 (* flag = 0; n = 2 / if flag: step = 10 else: step = 20 / for _ in range(4): total = 2 / while n: n = n - 1; w = 7 /
    try: q = 5 except: q = 6 / while True: total = total + 1; step = step + 1; w = w + 1; q = q + 1; mon.write(each):
-   inside the guard of C05_trace_is_pythons_partial; every name is a global, loop_body only assigns, values persist *)
+   accepted (C05_trace_is_pythons applies); every name is a global, loop_body only assigns, values persist *)
 Example C05_promoted_nonvacuous :
-  transl_ok w_promoted = true /\ vars_ok w_promoted = true /\ vars_persist w_promoted = true /\
+  transl_ok w_promoted = true /\
   one_main_last w_promoted = true /\
   globals_of w_promoted = [n_flag; n_n; n_step; n_total; n_w; n_q] /\ locals_of w_promoted = [] /\
   ir_loop w_promoted = [NVarAssign n_total; NVarAssign n_step; NVarAssign n_w; NVarAssign n_q;
@@ -254,9 +277,9 @@ Print Assumptions C05_housekeeping_nonvacuous.
 (* ---------------------------------------------------------------- source order, read off the trace *)
 (* For every accepted program (no other guard): when the top-level statements outside the main loop
    are straight-line, the numbered statements of setup() are exactly those statements, once each, in
-   source order - INCLUDING the ones written after the main loop and NOT the body; when the loop
-   body (the concatenation of all top-level [while True:] bodies) is straight-line, every pass shows
-   exactly its numbered statements, once each, in source order. *)
+   source order - and NOT the body (an accepted program has nothing after the main loop:
+   C05_accepted_shape); when the loop body is straight-line, every pass shows exactly its numbered
+   statements, once each, in source order. *)
 Theorem C05_source_order : forall inp n its, transl_ok its = true ->
   (forallb flat_stmt (fst (split its)) = true ->
      marks_of (fst (fst (exec_phases inp n its))) = flat_map marks_stmt (fst (split its))) /\
@@ -266,8 +289,9 @@ Proof. exact source_order. Qed.
 Print Assumptions C05_source_order.
 
 Example C05_source_order_nonvacuous :
-  marks_of (fst (fst (exec_phases no_input 2 w_postloop))) = [1; 3] /\
-  map marks_of (snd (fst (exec_phases no_input 2 w_twoloops))) = [[2; 3]; [2; 3]].
+  transl_ok w_straight = true /\
+  marks_of (fst (fst (exec_phases no_input 2 w_straight))) = [1; 3] /\
+  map marks_of (snd (fst (exec_phases no_input 2 w_straight))) = [[2; 4]; [2; 4]].
 Proof. exact source_order_example. Qed.
 Print Assumptions C05_source_order_nonvacuous.
 
